@@ -134,3 +134,8 @@ def run(ctx, rep):
     patch_rules(facts, rep, rule="C14-PATCH")
     from rules.shared_zip64 import guard_rules
     guard_rules(ctx, facts, rep, rule="C14-GUARD")
+    # a raw copy's local header is written once and never patched: its field order is what a front-to-back reader sees
+    from engine.codec import Codec
+    from rules.shared_codec import writer_table
+    writer_table(facts, rep, "C14-LFH", facts.one(r"^write::write_local_file_header$"), "LFH", ctx.spec("appnote.json"), Codec(facts), tail_optional=("extra",))
+    rep.floor("C14-LFH", 8)
